@@ -21,7 +21,7 @@ def run(tier):
     b = c01.bins(tier)
     ev.configs = [n for n, _ in b]
     q = tier == "quick"
-    plan = [("c06_ref", 30000 if q else 300000, 100), ("c06_keys", 4000 if q else 40000, 30)]
+    plan = [("c06_ref", 80000 if q else 800000, 100), ("c06_keys", 10000 if q else 100000, 30)]
     rcrun.run_rc(ev, b, plan, finding_key)
     return finish(ev)
 
